@@ -1372,4 +1372,4 @@ def case(draw, name):
         if spec.kind(p).fixed:
             continue
         variants.append({"k": p, "set": spec.perturb_param(draw, args, p)})
-    return {"cls": name, "args": args, "variants": variants}
+    return {"cls": name, "args": args, "variants": variants, "nudge": draw(st.integers(0, 63))}
